@@ -89,7 +89,7 @@ def run_program(prog, prefix=(), kinds=("P", "T", "K"), kill_code=-9, track_stat
     if pool.get("parent_depth"):
         w.pe._CURRENT_DEPTH = pool["parent_depth"]
     rec = Record()
-    rec.policy = dict(starve=starve, zero_when=zero_when)
+    rec.policy = dict(starve=starve, zero_when=zero_when, lines=bool(lines))
     rec.prog = prog
     rec.futures = {}
     rec.ops = []
